@@ -139,7 +139,8 @@ def main(argv):
     per_mech = Counter()
     for job in mine:
         sys.stdout = devnull
-        signal.alarm(CASE_TIMEOUT)
+        # a job of these kinds is a batch (many sequences / several interpreters), not one case
+        signal.alarm(CASE_TIMEOUT * (10 if job['kind'] in ('hashdiff', 'hist', 'plan14', 'units16', 'move18') else 1))
         try:
             out = run_job(job, prop)
         except CaseTimeout:
